@@ -1,0 +1,66 @@
+//go:build verif
+
+package cpr
+
+import (
+	"os"
+	"runtime"
+	"strconv"
+	"strings"
+	"sync/atomic"
+	"time"
+)
+
+// Schedule perturbation for verification builds (build tag "verif").
+// KNUT_VERIF_SCHED=<seed>:<permille>:<max_us> makes Push and Pop, which are
+// about to block on a channel anyway, occasionally yield or sleep first.
+// Without the variable this is a no-op.
+
+var verifSched struct {
+	on       bool
+	seed     uint64
+	permille uint64
+	maxUs    uint64
+	ctr      atomic.Uint64
+}
+
+func init() {
+	v := os.Getenv("KNUT_VERIF_SCHED")
+	if v == "" {
+		return
+	}
+	parts := strings.Split(v, ":")
+	if len(parts) != 3 {
+		return
+	}
+	seed, err1 := strconv.ParseUint(parts[0], 10, 64)
+	pm, err2 := strconv.ParseUint(parts[1], 10, 64)
+	us, err3 := strconv.ParseUint(parts[2], 10, 64)
+	if err1 != nil || err2 != nil || err3 != nil {
+		return
+	}
+	verifSched.on = true
+	verifSched.seed = seed
+	verifSched.permille = pm
+	verifSched.maxUs = us
+}
+
+func verifYield() {
+	if !verifSched.on {
+		return
+	}
+	n := verifSched.ctr.Add(1)
+	z := verifSched.seed + n*0x9E3779B97F4A7C15
+	z = (z ^ (z >> 30)) * 0xBF58476D1CE4E5B9
+	z = (z ^ (z >> 27)) * 0x94D049BB133111EB
+	z ^= z >> 31
+	if z%1000 >= verifSched.permille {
+		return
+	}
+	z >>= 10
+	if z&1 == 0 || verifSched.maxUs == 0 {
+		runtime.Gosched()
+		return
+	}
+	time.Sleep(time.Duration((z>>1)%verifSched.maxUs+1) * time.Microsecond)
+}
